@@ -101,7 +101,15 @@ pub enum Event {
     ClearAll { node: usize },
     Sync { client: usize, server: usize, faults: SyncFaults },
     /// sim re-cuts the dense reference copy of (origin, version) at these seq boundaries
-    Recut { origin: usize, version: u64, cuts: Vec<(u64, u64)> },
+    Recut {
+        origin: usize,
+        version: u64,
+        cuts: Vec<(u64, u64)>,
+        /// the supplier is a holder whose later versions overwrote part of this one: each chunk
+        /// carries only the rows still live at the origin now (possibly none, range kept)
+        #[serde(default)]
+        live: bool,
+    },
     Drop { msgs: Vec<MsgKey> },
     Crash { node: usize, lose_outbox: bool },
     Restart { node: usize },
